@@ -1124,6 +1124,30 @@ impl Injection for Base<DataType, Struct> {
 
 /// DataType -> Union
 /// This could be improved by selecting more carefuly the branch of the Union
+impl Base<DataType, Union> {
+    /// The term of the co-domain the domain is injected into: the one where the domain has the narrowest image.
+    /// It is selected once for the injection, so that `super_image` and `value` agree on it.
+    fn term(&self) -> Result<&(String, Arc<DataType>)> {
+        let mut best: Option<(&(String, Arc<DataType>), DataType)> = None;
+        for field in self.co_domain.fields.iter() {
+            let image = From(self.domain.clone())
+                .into(field.1.as_ref().clone())
+                .ok()
+                .and_then(|injection| injection.super_image(&self.domain).ok());
+            if let Some(image) = image {
+                if best
+                    .as_ref()
+                    .map_or(true, |(_, best_image)| image.is_subset_of(best_image))
+                {
+                    best = Some((field, image));
+                }
+            }
+        }
+        best.map(|(field, _)| field)
+            .ok_or(Error::set_out_of_range(&self.domain, &self.co_domain))
+    }
+}
+
 impl Injection for Base<DataType, Union> {
     type Domain = DataType;
     type CoDomain = Union;
@@ -1134,41 +1158,23 @@ impl Injection for Base<DataType, Union> {
         self.co_domain.clone()
     }
     fn super_image(&self, set: &Self::Domain) -> Result<Self::CoDomain> {
-        self.co_domain
-            .fields
-            .iter()
-            .fold(None, |best_image, (field, term)| {
-                let term_image = From(set.clone())
-                    .into(term.as_ref().clone())
-                    .ok()
-                    .and_then(|injection| injection.super_image(set).ok());
-                best_image.map_or_else(
-                    || Some(Union::from_field(field, term_image.clone()?)),
-                    |best_image: Union| {
-                        if term_image.clone().map_or(false, |term_image| {
-                            term_image.is_subset_of(&best_image.field_from_index(0).1)
-                        }) {
-                            Some(Union::from_field(field, term_image.clone()?))
-                        } else {
-                            Some(best_image)
-                        }
-                    },
-                )
-            })
-            .ok_or(Error::set_out_of_range(set, self.domain()))
+        let (field, term) = self.term()?;
+        let image = From(set.clone())
+            .into(term.as_ref().clone())?
+            .super_image(set)?;
+        Ok(Union::from_field(field, image))
     }
     fn value(
         &self,
         arg: &<Self::Domain as Variant>::Element,
     ) -> Result<<Self::CoDomain as Variant>::Element> {
         let arg_value: value::Value = arg.clone().into();
-        let field = self
-            .co_domain
-            .fields
-            .iter()
-            .find(|(_, t)| t.contains(&arg_value))
-            .ok_or(Error::argument_out_of_range(arg, self.domain()))?;
-        Ok(value::Union::from_field(&field.0, arg_value))
+        let (field, term) = self.term()?;
+        if term.contains(&arg_value) {
+            Ok(value::Union::from_field(field, arg_value))
+        } else {
+            Err(Error::argument_out_of_range(arg, self.domain()))
+        }
     }
 }
 
